@@ -660,11 +660,12 @@ func runC29(c *Ctx, cfg c29Config) {
 	}
 	rd := &c29Reader{c: c, cache: map[*types.Func]*c29Table{}, errs: map[*types.Func]error{}, bins: map[string]map[int64]int64{}}
 	gateOK := c29Gate(c, cfg)
-	nSort := 0
+	nSort, nReal := 0, 0
 	for _, e := range entries {
 		if e.id == 0 {
 			continue
 		}
+		nReal++
 		key := e.name
 		if key == "" {
 			key = fmt.Sprintf("id%d", e.id)
@@ -732,7 +733,7 @@ func runC29(c *Ctx, cfg c29Config) {
 			c29Bin(c, key, e, tab)
 		}
 	}
-	c.Notef("collation table: %d entries with ID != 0, %d with a sorter, %d distinct sorter functions read, %d embedded .bin tables decoded", len(entries)-1, nSort, len(rd.cache), len(rd.bins))
+	c.Notef("collation table: %d slots, %d entries with ID != 0, %d with a sorter, %d distinct sorter functions read, %d embedded .bin tables decoded", len(entries), nReal, nSort, len(rd.cache), len(rd.bins))
 	c29S1(c, cfg)
 }
 
